@@ -170,7 +170,18 @@ pub fn run(outdir: &Path, tier: &str, seed: u64, shards: usize, _replay: Option<
                 std::fs::create_dir_all(work.join("sub/dir")).unwrap();
                 std::fs::write(work.join("schema.graphql"), p.schema.render_sdl()).unwrap();
                 let qtext = p.doc.render();
-                std::fs::write(work.join(&a.query_rel), &qtext).unwrap();
+                // one time in four the query path named on the command line is a symbolic link to a file of another
+                // name in another directory: the destination is derived from the path as given
+                let via_symlink = rng.chance(1, 4);
+                if via_symlink {
+                    std::fs::create_dir_all(work.join("shared/store")).unwrap();
+                    std::fs::write(work.join("shared/store/real_document.graphql"), &qtext).unwrap();
+                    let depth = Path::new(&a.query_rel).components().count() - 1;
+                    let target = format!("{}shared/store/real_document.graphql", "../".repeat(depth));
+                    std::os::unix::fs::symlink(&target, work.join(&a.query_rel)).unwrap();
+                } else {
+                    std::fs::write(work.join(&a.query_rel), &qtext).unwrap();
+                }
                 // the destination by the documentation
                 let fname = Path::new(&a.query_rel).file_name().unwrap().to_string_lossy().to_string();
                 let stem = match fname.rfind('.') { Some(0) | None => fname.clone(), Some(i) => fname[..i].to_string() };
@@ -184,6 +195,14 @@ pub fn run(outdir: &Path, tier: &str, seed: u64, shards: usize, _replay: Option<
                 let old_contents: String = if rng.chance(1, 2) { "OLD CONTENTS".to_string() } else { "pub struct OldLeftover;\n".repeat(20000) };
                 if pre_existing {
                     std::fs::write(work.join(&dest_rel), &old_contents).unwrap();
+                }
+                // ... or the destination already holds what the SAME command wrote a moment ago with --no-formatting:
+                // the formatted run must still replace it
+                let after_unformatted = !a.no_formatting && kind == "valid" && rng.chance(1, 3);
+                if after_unformatted {
+                    let mut argv0 = a.argv();
+                    argv0.push("--no-formatting".into());
+                    let _ = Command::new(&bin).args(&argv0).current_dir(&work).env("RUST_BACKTRACE", "0").output();
                 }
                 let mut before = std::collections::BTreeMap::new();
                 list_files(&work, &work, &mut before);
@@ -232,7 +251,7 @@ pub fn run(outdir: &Path, tier: &str, seed: u64, shards: usize, _replay: Option<
                         lib.coq,
                         coq::b(old_untouched)
                     ),
-                    desc: json!({"argv": a.argv(), "program_kind": kind, "exit_ok": exit_ok, "written": written, "expected_destination": dest_rel, "pre_existing_destination": pre_existing,
+                    desc: json!({"argv": a.argv(), "program_kind": kind, "exit_ok": exit_ok, "written": written, "expected_destination": dest_rel, "pre_existing_destination": pre_existing, "query_path_is_symlink": via_symlink, "after_unformatted_run": after_unformatted,
                                  "stderr": out.as_ref().map(|o| String::from_utf8_lossy(&o.stderr).chars().take(200).collect::<String>()).unwrap_or_default()}),
                     key: format!("{:?}|{}|{}", a.argv(), kind, n),
                     nontrivial: true,
@@ -250,7 +269,7 @@ pub fn run(outdir: &Path, tier: &str, seed: u64, shards: usize, _replay: Option<
         preludes: vec![],
     };
     cs.write(outdir, shards, json!({
-        "rule": "the binary built from the working tree, run in a scratch directory on random programs (and on versions invalidated by four C06 edits) with random subsets of the 8 option flags (values incl. `private`, `Pub`, `bogus`), x {default placement, -o dir (two depths)} x {rustfmt, --no-formatting} x query file names {query.graphql, my.query.graphql, noext, .hidden.graphql, sub/dir/q.v2.gql} x {destination pre-existing or not}; observation: exit status, set of files created or changed, the written file parsed with syn, compared with the library called in-process with the corresponding options.",
+        "rule": "the binary built from the working tree, run in a scratch directory on random programs (and on versions invalidated by four C06 edits) with random subsets of the 8 option flags (values incl. `private`, `Pub`, `bogus`), x {default placement, -o dir (two depths)} x {rustfmt, --no-formatting} x query file names {query.graphql, my.query.graphql, noext, .hidden.graphql, sub/dir/q.v2.gql} x {destination absent, pre-existing (short / much longer), or just written by the same command with --no-formatting} x {query path a regular file, or a symbolic link to a file of another name elsewhere}; observation: exit status, set of files created or changed, the written file parsed with syn, compared with the library called in-process with the corresponding options.",
         "distribution": dist, "samples": samples,
     }));
     runner::cleanup_scratch();
